@@ -143,12 +143,7 @@ theorem metaLines_prune (E : Env) (m : List (Str × Val)) : metaLines E (pruneMe
     have hv := emitValue_prune E v 1
     cases v <;> simp_all [pruneMeta, metaLines, pruneVal, nestedMetaLines_prune]
 
-/-- the one place where Absent is not silent as the code stands: META non-empty, all values Absent. -/
-def metaAllAbsent (m : List (Str × Val)) : Bool := !m.isEmpty && (pruneMeta m).isEmpty
-
-theorem metaBlock_prune (E : Env) (m : List (Str × Val))
-    (h : Gen.emitChecksMetaText = true ∨ metaAllAbsent m = false) :
-    metaBlock E (pruneMeta m) = metaBlock E m := by
+theorem metaBlock_prune (E : Env) (m : List (Str × Val)) : metaBlock E (pruneMeta m) = metaBlock E m := by
   unfold metaBlock
   rw [metaLines_prune]
   by_cases hm : m.isEmpty = true
@@ -158,9 +153,7 @@ theorem metaBlock_prune (E : Env) (m : List (Str × Val))
   · by_cases hp : (pruneMeta m).isEmpty = true
     · have hp' : pruneMeta m = [] := by simpa using hp
       have hl : metaLines E m = [] := by rw [← metaLines_prune, hp']; rfl
-      rcases h with h | h
-      · simp [hm, hp, hl, h]
-      · simp [metaAllAbsent, hm, hp] at h
+      simp [hm, hp, hl]
     · simp [hm, hp]
 
 /-! ### the environment is never consulted on Absent
